@@ -33,6 +33,8 @@ def tok_text(tok):
         return '%s=%s)' % (n, ','.join(str(i) for i in v))
     if k == 'rparen':
         return '%s=(%s' % (n, ','.join(str(i) for i in v))
+    if k == 'empty':
+        return '%s=' % n
     return c03.as_text(n, val)
 
 
@@ -85,7 +87,7 @@ def cls_of(tw, args):
     for a in args:
         if not a['eq']:
             return 'missing-eq'
-        if a['val']['k'] in ('lparen', 'rparen', 'badseq'):
+        if a['val']['k'] in ('lparen', 'rparen', 'badseq', 'empty'):
             return 'data-syntax'
         if a['n'] == 'data' and a['val']['k'] == 'int':
             return 'data-syntax'
@@ -299,6 +301,15 @@ def replay(case):
         else:
             r = check_stream(row[1], row[2], LINE_TABLE)
         return r and '%s: %s' % r
+    if 'special_text' in case:
+        text = case['special_text']
+        mid = mido.MidiFile(type=1, ticks_per_beat=96)
+        mid.tracks.append(mido.MidiTrack([mido.MetaMessage('lyrics', text=text, time=1)]))
+        try:
+            b = eval_repr(mid)
+            return None if list(b.tracks[0]) == list(mid.tracks[0]) else 'eval(repr(file)) differs'
+        except Exception as e:
+            return 'eval(repr(file)) raised %r' % (e,)
     if 'msg' in case:
         from ..midi import attrs_of
         m = mido.Message(case['msg']['type'], time=eval(case['msg']['time']),
@@ -356,6 +367,26 @@ CHECK_DEADLOCK FALSE
         ctx.replayed += 1
         if r:
             ctx.violation('text/' + r[0], {'msg': {'type': 'sysex', 'v': list(m.data), 'time': repr(m.time)}}, r[1])
+    # files and tracks whose meta text contains characters that are special in format
+    # strings, string literals or reprs
+    for text in ('{chorus}', '{}', 'a } b', '{{verse}}', '{0}', "it's", 'say "hi"', 'back\\slash', 'new\nline',
+                 '%s %d', '\x00', 'caf\xe9', ''):
+        mid = mido.MidiFile(type=1, ticks_per_beat=96)
+        mid.tracks.append(mido.MidiTrack([mido.MetaMessage('lyrics', text=text, time=1),
+                                          mido.Message('note_on', time=2)]))
+        mid.tracks.append(mido.MidiTrack([mido.MetaMessage('track_name', name=text)]))
+        ctx.replayed += 1
+        try:
+            b = eval_repr(mid)
+            ok = (b.type == 1 and b.ticks_per_beat == 96 and len(b.tracks) == 2 and
+                  all(list(x) == list(y) for x, y in zip(b.tracks, mid.tracks)))
+            for tr in mid.tracks:
+                ok = ok and list(eval_repr(tr)) == list(tr) and eval_repr(tr[0]) == tr[0]
+        except Exception as e:
+            ok, b = False, e
+        if not ok:
+            ctx.violation('text/roundtrip/repr/file-special-text', {'special_text': text},
+                          'eval(repr(x)) failed for a file with meta text %r: %s' % (text, core.srepr(b)))
     # meta messages
     pr = core.ParallelReplay(ctx, meta_worker, batch_size=300)
     res = core.run_tlc('MetaCheck', """SPECIFICATION Spec
